@@ -259,6 +259,9 @@ def gen_case(rng):
         j = rng.choice([', ', ' of the ', ', '])
         pm = rng.choice(['5th P.M.', 'Fifth Principal Meridian', '5 PM'])
         text = re.sub(r'(T\d+[NS]-R\d+[EW])', r'\1' + j + pm, text, count=1)
+        if rng.random() < 0.5:
+            # ... and named once more at the very end
+            text += rng.choice([', 5th P.M.', '\n5th P.M.', ', P.M.'])
         fam = 'with-pm'
     elif r < 0.70:
         # A principal-meridian designation on a line of its own, AFTER a
@@ -371,7 +374,7 @@ def check_case(case, ctx, rec, pytrs, rgxlib):
                                   dedup=mode)
                 # What a first parse reported, a later parse of the same
                 # text (same object, and a second object) reports too.
-                if ctx.evaluations % 3 == 0:
+                if ctx.evaluations % 3 == 0 or 'pm' in case['family']:
                     ctx.hit('repeat-parse')
                     first = (sorted(t.desc for t in d.tracts),
                              sorted(map(str, d.e_flags)))
